@@ -373,10 +373,24 @@ func verifyPayload(e *Exchange, signature *Signature) ([]byte, error) {
 }
 
 // headerValue returns the value of a header field the way it is serialized and
-// signed: repeated field values joined with commas (see normalizeHeaderValues),
-// so that the verdict does not depend on how the values are split in memory.
+// signed: the field is found whatever the letter case of its key in the map
+// (encodeHeaders lower-cases every key), and repeated field values are joined
+// with commas (see normalizeHeaderValues), so that the verdict does not depend
+// on how the header map was built in memory.
 func headerValue(h http.Header, name string) string {
-	return normalizeHeaderValues(h.Values(name))
+	lname := strings.ToLower(name)
+	var keys []string
+	for k := range h {
+		if strings.ToLower(k) == lname {
+			keys = append(keys, k)
+		}
+	}
+	sort.Strings(keys)
+	var values []string
+	for _, k := range keys {
+		values = append(values, h[k]...)
+	}
+	return normalizeHeaderValues(values)
 }
 
 func isSameOrigin(u1, u2 *url.URL) bool {
